@@ -591,8 +591,9 @@ def _write_dominates(fi, read, base, owner, prog) -> bool:
                 return False
             if assigns(s):
                 have = True
-            elif isinstance(s, ast.If) and validated(s.test):
-                have = have
+            elif isinstance(s, ast.If) and validated(s.test) and any(assigns(b) for b in s.body) and not s.orelse:
+                # `if <unset or differs from my own table>: <write it>`: on the other branch it equals the owner's entry
+                have = True
         return have
     return walk(fi.node.body)
 
